@@ -453,7 +453,9 @@ impl TextSpec {
         if let Some(r) = &self.raw {
             return r.clone();
         }
-        let mut s = vmodel::text::encode(v, &self.base, self.with_prefix);
+        let mut base = self.base.clone();
+        base.resize(v.size(), 0);
+        let mut s = vmodel::text::encode(v, &base, self.with_prefix);
         for m in &self.muts {
             match m {
                 Mut::FlipCase(p) => {
